@@ -4,3 +4,4 @@ import AJ.Props.C09Prefix
 import AJ.Props.C09Doc
 import AJ.Props.SlotCor2
 import AJ.Props.C09Gen
+import AJ.Props.DocGen
